@@ -228,7 +228,7 @@ def run(ctx):
         dd = [s_ for s_ in walk_no_nested(dfs) if isinstance(s_, ast.Assign)
               and norm(s_.value) == 'self.determinants[%s][%s]' % (tp, num)]
         short_ = any(isinstance(n, ast.If) and norm(n.test).replace(' ', '') ==
-                     '%s>=len(self.determinants[%s])' % (num, tp) for n in walk_no_nested(dfs))
+                     'len(self.determinants[%s])<=%s' % (tp, num) for n in walk_no_nested(dfs))
         if len(dd) == 1:
             dv = norm(dd[0].targets[0])
             fm = [n for n, tpl in string_builders(dfs)
